@@ -232,8 +232,11 @@ func (m *Machine) eval(e *T) (*T, *T) {
 	case term.KAtom:
 		return nil, typeErr("evaluable", term.C("/", e, term.I(0)))
 	case term.KCmp:
-		if e.IsCmp(".", 2) && m.deref(e.Args[1]).IsAtom("[]") {
-			return m.eval(e.Args[0])
+		// the functor is checked before the arguments are evaluated
+		switch key(e.S, len(e.Args)) {
+		case "+/2", "-/2", "*/2", "-/1", "+/1", "///2", "mod/2", "abs/1", "min/2", "max/2":
+		default:
+			return nil, typeErr("evaluable", term.C("/", term.A(e.S), term.I(int64(len(e.Args)))))
 		}
 		var vals []*big.Int
 		for _, a := range e.Args {
